@@ -3,8 +3,9 @@
 PROPS = {
     "C03": {
         "suites": [{"name": "fresh", "quick": 20000, "thorough": 300000, "thorough_seeds": 4},
-                   {"name": "sched", "stateful": True, "quick": 400, "thorough": 8000, "thorough_seeds": 2}],
-        "trip_re": "stored_unshareable|pass_not_forwarded_once|label_lies|unqualified_shared|stored_not_served|wrong_body_for_key",
+                   {"name": "sched", "stateful": True, "quick": 400, "thorough": 8000, "thorough_seeds": 2},
+                   {"name": "fault", "quick": 90, "thorough": 3000, "thorough_seeds": 2}],
+        "trip_re": "stored_unshareable|pass_not_forwarded_once|label_lies|unqualified_shared|stored_not_served|wrong_body_for_key|upstream_contacts_ne_one",
         "rule": "fresh: upstream header sets from a Cache-Control directive grammar (names in random case, "
                 "values incl. 0/overflow/junk, 1-3 header lines, Set-Cookie lists incl. empty values, Age valid/"
                 "negative/junk/huge, any status, all methods) sent through the real middleware chain, each followed by "
@@ -12,7 +13,7 @@ PROPS = {
                 "unqualified response is not shared; a stored one is served); the clauses 'label truthful / forwarded exactly "
                 "once' are decided by this correspondence and the sched suite (X-Status vs. model pc), not by a Lean theorem; "
                 "non-trivial = a Cache-Control field is present or the model stores; distinct = distinct "
-                "(method, status, header set).",
+                "(method, status, header set)." + ' fault: a real listening server (server.Start) in front of a loopback origin that misbehaves at the transport level, real clients: drop (request read, connection closed without a response byte; every origin connection is fresh so net/http never replays), redirect (302 no-store + Location), short (Content-Length N, connection dies after N/2 bytes), with and without a proxy timeout on the location; observed: origin contacts per path, client status/bytes/label.',
         "assumptions": ["header strings are byte strings; the two non-ASCII runes that Go's (?i) folds to s/k are not generated",
                         "net/http delivers canonical header keys"],
         "trusted_base": ["regexp (beyond the literal/alternation/digits subset interpreted in Lean), strconv.Atoi modelled from its documentation",
@@ -20,8 +21,10 @@ PROPS = {
     },
     "C06": {
         "suites": [{"name": "key", "quick": 6000, "thorough": 100000, "thorough_seeds": 3},
-                   {"name": "disp", "stateful": True, "quick": 60, "thorough": 600, "thorough_seeds": 3}],
-        "rule": "key: pairs of (method, host, uri) triples (equal, or differing in exactly one component: GET/HEAD, host/port/"
+                   {"name": "disp", "stateful": True, "quick": 60, "thorough": 600, "thorough_seeds": 3},
+                   {"name": "proxy", "stateful": True, "seq_marker": "case", "quick": 300, "thorough": 3000, "thorough_seeds": 2},
+                   {"name": "store", "stateful": True, "seq_marker": "open", "quick": 1500, "thorough": 40000, "thorough_seeds": 2}],
+        "rule": " store: random get/set/delete sequences on TWO REAL badger stores obtained through store.NewStore, with keys that differ only far from their beginning (1.5 KB keys sharing 1.4 KB, 66 000-byte keys sharing 65 500 bytes — beyond badger's key limit, so writes are refused —, 64 000-byte keys differing in the last byte), replayed on the Lean map StoreMap (the map Sys.store assumes); monitors: a value read was written for that key of that store, a deleted record is gone, one instance per url and different urls are different stores. proxy (real transport): what the origin sees for a path with escaped reserved characters is byte for byte what the client wrote. " + "key: pairs of (method, host, uri) triples (equal, or differing in exactly one component: GET/HEAD, host/port/"
                 "case, one byte of the query, trailing ?/&, extra slash) through the real middleware chain with a self-identifying "
                 "upstream; the key bytes are observed at the recording store. disp: op sequences (get/purge/put) on two real "
                 "dispatchers with near-identical keys and real MemHash values. non-trivial = every pair / every get or purge; "
@@ -43,8 +46,10 @@ PROPS = {
 }
 
 PROPS["C14"] = {
-    "suites": [{"name": "loc", "quick": 1500, "thorough": 40000, "thorough_seeds": 3}],
-    "rule": "loc: 1-5 locations (hosts ⊆ 3 hosts or none, prefixes ⊆ 6 overlapping prefixes or none, occasional duplicate names), a server "
+    "suites": [{"name": "loc", "quick": 1500, "thorough": 40000, "thorough_seeds": 3},
+               {"name": "reconf", "args": ["-opt", "nolisten"], "stateful": True, "quick": 150, "thorough": 3000, "thorough_seeds": 2}],
+    "trip_re": "routing|differs_from_fresh:S",
+    "rule": "reconf: the location list each running server ends up with after configuration updates applied through servers.Reset (incl. updates that only shorten a list), read back per server. loc: 1-5 locations (hosts ⊆ 4 hosts, one with upper-case letters, or none; request hosts also in other letter case; prefixes ⊆ 6 overlapping prefixes or none, occasional duplicate names), a server "
             "listing a shuffled subset of them (plus an unknown name), 6 requests (host × uri) each through the real middleware chain; each "
             "location has its own upstream so the contacted upstream identifies the choice; judged by membership in the model's allowed set "
             "(the sort is unstable). non-trivial = every request; distinct = distinct (locations, names, host, uri).",
@@ -52,9 +57,11 @@ PROPS["C14"] = {
     "trusted_base": ["sort.Slice", "strings.HasPrefix"],
 }
 
+_STORE_RULE = " store: random get/set/delete sequences on TWO REAL badger stores obtained through store.NewStore, with keys that differ only far from their beginning (1.5 KB keys sharing 1.4 KB, 66 000-byte keys sharing 65 500 bytes — beyond badger's key limit, so writes are refused —, 64 000-byte keys differing in the last byte), replayed on the Lean map StoreMap (the map Sys.store assumes); monitors: a value read was written for that key of that store, a deleted record is gone, one instance per url and different urls are different stores."
 PROPS["C09"] = {
-    "suites": [{"name": "codec", "quick": 4000, "thorough": 60000, "thorough_seeds": 3}],
-    "rule": "codec: reachable entries built through the public API (Get/Cacheable/HitForPass with a recording store): hit, empty "
+    "suites": [{"name": "codec", "quick": 4000, "thorough": 60000, "thorough_seeds": 3},
+               {"name": "store", "stateful": True, "seq_marker": "open", "quick": 1500, "thorough": 40000, "thorough_seeds": 2}],
+    "rule": _STORE_RULE + " codec: reachable entries built through the public API (Get/Cacheable/HitForPass with a recording store): hit, empty "
             "hit-for-pass, hit-for-pass keeping an old response; header sets incl. multi-valued, empty, nil, non-ASCII, quoting; bodies "
             "empty/1 byte/repetitive/random up to 600 B in any subset of raw/gzip/br; min-length up to 2^31, ttl up to 2^62; a separate "
             "obs-text stream (invalid UTF-8 header values). Every record is decoded by the real FromBytes under recover/watchdog/"
@@ -74,19 +81,24 @@ _RESP_RULE = ("resp: per case one upstream answer (status 200/201/301/404/500; b
               "request after all entries were dropped and the entry restored from the store, POST pass-through; all through the real middleware "
               "chain. Observed: status, Content-Encoding, body decoded by reference decoders == upstream plain body, bytes identical to the "
               "upstream's, Content-Length, X-Status, end-to-end headers, upstream calls. non-trivial = every request line; distinct = distinct lines.")
+_FAULT_RULE = ' fault: a real listening server (server.Start) in front of a loopback origin that misbehaves at the transport level, real clients: drop (request read, connection closed without a response byte; every origin connection is fresh so net/http never replays), redirect (302 no-store + Location), short (Content-Length N, connection dies after N/2 bytes), with and without a proxy timeout on the location; observed: origin contacts per path, client status/bytes/label.'
 PROPS["C05"] = {
-    "suites": [{"name": "resp", "stateful": True, "seq_marker": "case", "quick": 1500, "thorough": 30000, "thorough_seeds": 3}],
-    "trip_re": "body_differs|encoding_not_accepted|content_length|status_or_header_changed",
-    "rule": _RESP_RULE,
+    "suites": [{"name": "resp", "stateful": True, "seq_marker": "case", "quick": 1500, "thorough": 30000, "thorough_seeds": 3},
+               {"name": "fault", "quick": 90, "thorough": 3000, "thorough_seeds": 2},
+               {"name": "codecs", "quick": 500, "thorough": 10000, "thorough_seeds": 2}],
+    "trip_re": "body_differs|encoding_not_accepted|content_length|status_or_header_changed|roundtrip_fails.*|decoder_crash.*",
+    "rule": _RESP_RULE + _FAULT_RULE + " codecs: the decoders the request path applies to upstream bodies, on reference streams of every format (see C12).",
     "assumptions": ["codec libraries: decode(encode x) = x, compressed output non-empty (CodecsOK); the upstream body is valid for its declared encoding",
                     "client codings from the documented alphabet, no q-values (the property says plain list)",
                     "Content-Length is set by elton from the body buffer (trusted glue, compared in the suite)"],
     "trusted_base": ["compress/gzip, andybalholm/brotli, pierrec/lz4, klauspost zstd, golang/snappy", "elton context and response writing"],
 }
 PROPS["C13"] = {
-    "suites": [{"name": "resp", "args": ["-opt", "c13"], "stateful": True, "seq_marker": "case", "quick": 1500, "thorough": 30000, "thorough_seeds": 3}],
-    "trip_re": "cell_differs|stored_variant_not_best_profile.*",
-    "rule": _RESP_RULE + " The table cells {accepts none/gzip/br/both/other} x {stored variants} x {below/at/above threshold} x {type matches or not} x "
+    "suites": [{"name": "resp", "args": ["-opt", "c13"], "stateful": True, "seq_marker": "case", "quick": 1500, "thorough": 30000, "thorough_seeds": 3},
+               {"name": "reconf", "args": ["-opt", "nolisten"], "stateful": True, "quick": 150, "thorough": 3000, "thorough_seeds": 2}],
+    "trip_re": "cell_differs|stored_variant_not_best_profile.*|differs_from_fresh:S",
+    "rule": _RESP_RULE + " reconf: the content-type filter and threshold each server ends up with after config conversion and updates, read back per server (several servers per configuration, with and without a filter)."
+            " The table cells {accepts none/gzip/br/both/other} x {stored variants} x {below/at/above threshold} x {type matches or not} x "
             "{cacheable or not} are all produced by this generator (case_classes in the evidence lists the outcome classes hit).",
     "assumptions": ["'at threshold' is not compressed (pinned from the unchanged code and docs)"],
     "trusted_base": ["strings.Contains", "regexp on the content type for filters outside the literal-alternation subset (the generator stays inside it)"],
@@ -104,9 +116,10 @@ _SYS_TRUSTED = ["Go runtime: sync.Mutex/RWMutex and unbuffered channel semantics
                 "elton middleware chain and context", "the wall clock is monotone (whole seconds)",
                 "the hand transcription of the entry state machine into Entry/Sys, tied to the source by the regenerated statement skeletons (C01.skeleton_transcribed) and the lock-scope facts (lockSections, storeCalls, accessTable); groupcache lru.Cache is modelled (every method call on it counts as a write of the shard)"]
 PROPS["C01"] = {
-    "suites": [{"name": "sched", "stateful": True, "quick": 1500, "thorough": 30000, "thorough_seeds": 4}],
-    "trip_re": "overlap|waiter_not_served|second_entry_for_key",
-    "rule": _SCHED_RULE, "assumptions": ["Sys abstracts from int64 wrap-around of createdAt+ttl (covered at entry level, C04.overflow_never_served)"],
+    "suites": [{"name": "sched", "stateful": True, "quick": 1500, "thorough": 30000, "thorough_seeds": 4},
+               {"name": "fault", "quick": 90, "thorough": 3000, "thorough_seeds": 2}],
+    "trip_re": "overlap|waiter_not_served|second_entry_for_key|upstream_contacts_ne_one",
+    "rule": _SCHED_RULE + _FAULT_RULE, "assumptions": ["Sys abstracts from int64 wrap-around of createdAt+ttl (covered at entry level, C04.overflow_never_served)"],
     "trusted_base": _SYS_TRUSTED,
 }
 PROPS["C02"] = {
@@ -132,17 +145,22 @@ PROPS["C07"] = {
     "rule": _SCHED_RULE, "assumptions": [], "trusted_base": _SYS_TRUSTED + ["time.ParseDuration for the configured period"],
 }
 PROPS["C10"] = {
-    "suites": [{"name": "sched", "stateful": True, "quick": 1500, "thorough": 30000, "thorough_seeds": 4}],
-    "trip_re": "blocked|immortal|client_error_from_store_fault",
-    "rule": _SCHED_RULE, "assumptions": ["a structurally valid record whose body bytes were altered is undetectable without a checksum: outside the property as decided here",
+    "suites": [{"name": "sched", "stateful": True, "quick": 1500, "thorough": 30000, "thorough_seeds": 4},
+               {"name": "config", "quick": 600, "thorough": 10000, "thorough_seeds": 2},
+               {"name": "reconf", "args": ["-opt", "nolisten"], "stateful": True, "quick": 150, "thorough": 3000, "thorough_seeds": 2}],
+    "trip_re": "blocked|immortal|client_error_from_store_fault|accepted_unresolvable.*|surviving_cache_replaced",
+    "rule": _SCHED_RULE + " config / reconf: configurations with a cache whose store url is well-formed but cannot be opened (a path below /dev/null): "
+            "every server still resolves its cache and serves, and the memory-only cache survives later updates like any other.",
+    "assumptions": ["a structurally valid record whose body bytes were altered is undetectable without a checksum: outside the property as decided here",
                                           "store calls return (a hanging store is outside the model)"],
     "trusted_base": _SYS_TRUSTED,
 }
 PROPS["C18"] = {
     "suites": [{"name": "sched", "stateful": True, "quick": 1000, "thorough": 20000, "thorough_seeds": 3},
-               {"name": "disp", "stateful": True, "quick": 60, "thorough": 600, "thorough_seeds": 3}],
-    "trip_re": "served_from_purged|record_survives|blocked|purge_touched_other",
-    "rule": _SCHED_RULE + " disp: named / unnamed / unknown-cache purges on two real dispatchers with stores.",
+               {"name": "disp", "stateful": True, "quick": 60, "thorough": 600, "thorough_seeds": 3},
+               {"name": "store", "stateful": True, "seq_marker": "open", "quick": 1500, "thorough": 40000, "thorough_seeds": 2}],
+    "trip_re": "served_from_purged|record_survives|blocked|purge_touched_other|purge_acked_before_done",
+    "rule": _SCHED_RULE + " disp: named / unnamed / unknown-cache purges on two real dispatchers with stores." + _STORE_RULE,
     "assumptions": ["a fetch in flight at purge time may persist its result afterwards (the property only requires non-blocking there)"],
     "trusted_base": _SYS_TRUSTED,
 }
@@ -178,7 +196,7 @@ PROPS["C12"] = {
 
 PROPS["C17"] = {
     "suites": [{"name": "config", "quick": 3000, "thorough": 60000, "thorough_seeds": 3}],
-    "trip_re": "accepted_dangling|accepted_unresolvable.*|roundtrip_differs.*|differs_from_fresh:watch.*",
+    "trip_re": "accepted_dangling|accepted_unresolvable.*|accepted_malformed.*|roundtrip_differs.*|differs_from_fresh:watch.*",
     "rule": "config: configurations with 1-2 compress profiles and caches, 1-3 upstreams and locations, 1-2 servers, 30% of the names from a "
             "list needing YAML quoting (yes, null, 123, 'a: b', ~, true, 0x1f, -, #x, [a], {b}, quotes, leading/trailing blank, tab, 1e3, off, "
             "non-ASCII), optional fields set or unset; then exactly one of 18 defects (4 dangling references, 14 malformed fields) or none. "
@@ -211,9 +229,10 @@ PROPS["C19"] = {
 
 PROPS["C08"] = {
     "suites": [{"name": "sched", "stateful": True, "quick": 1000, "thorough": 20000, "thorough_seeds": 3},
-               {"name": "crash", "stateful": True, "quick": 25, "thorough": 600, "thorough_seeds": 3}],
-    "trip_re": "served_altered.*|served_after_original_expiry|age_reset.*|not_started|client_error|served_stale|wrong_body_for_key",
-    "rule": _SCHED_RULE + " crash: a CHILD PROCESS serves a 60-step history (GETs on 8 keys with an LRU of 4, ticks, purges, bursts of 8 simultaneous "
+               {"name": "crash", "stateful": True, "quick": 25, "thorough": 600, "thorough_seeds": 3},
+               {"name": "store", "stateful": True, "seq_marker": "open", "quick": 1500, "thorough": 40000, "thorough_seeds": 2}],
+    "trip_re": "served_altered.*|served_after_original_expiry|age_reset.*|not_started|client_error|served_stale|wrong_body_for_key|purge_acked_before_done",
+    "rule": _SCHED_RULE + _STORE_RULE + " crash: a CHILD PROCESS serves a 60-step history (GETs on 8 keys with an LRU of 4, ticks, purges, bursts of 8 simultaneous "
             "concurrent writers; lifetimes 2-5 s, every 7th answer uncacheable) through the real request path with a REAL badger "
             "directory; the parent SIGKILLs it at PRNG-chosen output lines plus 0-3 ms jitter (so kills land inside fetches, drains, "
             "saves and purges), restarts it on the same directory, up to 4 kills per trial. Every upstream answer is reported before it "
